@@ -255,6 +255,20 @@ pub fn c01_as(property: &str, subjects: &[Box<dyn Subject>], docs: &[Doc], param
             let reference = run_spec(subject, input, &Spec::oneshot());
             acc.outcome(format!("{}:{}", family_of(subject), reference.end.sig()));
             acc.states += 1;
+            if docs[di].name.starts_with('^') {
+                // long documents (several default chunks): refills, realigns and buffer growth at the
+                // real 16 KiB chunk size, large and odd read sizes, a chunk size change up front
+                acc.count(&format!("long_document {} ({} bytes) one-shot: {} items then {}", &docs[di].name[1..], input.len(), reference.items.len(), reference.end.kind()), 1);
+                for (s, chunk) in [(16384usize, None), (4096, None), (1000, None), (333, Some(4096usize)), (7, Some(100)), (65536, Some(20000)), (1, Some(16384))] {
+                    let spec = Spec::uniform(s, chunk);
+                    let ex = run_spec(subject, input, &spec);
+                    c01_compare(property, subject, input, &reference, &spec, &ex, acc);
+                }
+                let spec = Spec::uniform(5000, None).via_buf_reader(8192);
+                let ex = run_spec(subject, input, &spec);
+                c01_compare(property, subject, input, &reference, &spec, &ex, acc);
+                return;
+            }
             if docs[di].name.starts_with('~') {
                 // lane families (every byte value at every position): what matters is block-wise
                 // versus byte-wise processing, i.e. how much is buffered - uniform grains 1, 3, 8 and
